@@ -5,11 +5,14 @@
 //@trusted [env] BlockZero/WalBlock (MemBlock<..>, raw-pointer code in storage/core/buffer.rs) are abstract values with an image(): Seq<u8>; meta()/recs() are uninterpreted decodings of that image; the contracts of metadata/metadata_mut/available_space/try_push/as_ref/as_mut/record/alloc are ASSUMED here and checked separately, bounded, by the Kani unit walbytes on the real code
 //@trusted [env] DBFile is a sequence of fixed-size blocks with a cursor: seek sets the cursor; write_all of one block at a block-aligned cursor replaces exactly that block (atomically: a failed write changes nothing); read_exact returns the block; set_len(0)/truncate empties the file; sync_all changes nothing observable
 //@trusted [env] std::collections::VecDeque as specified by vstd
+//@trusted [target] usize is 64 bits wide (global size_of usize == 8)
 //@trusted [bound] the log has fewer than 2^32 blocks of at most 2^24 bytes and fewer than 2^32-1 entries since the last truncate (preconditions of push; offsets then fit u64)
 use vstd::prelude::*;
 use std::collections::VecDeque;
 
 verus! {
+
+global size_of usize == 8;
 
 type Lsn = u64;
 type BlockId = u64;
@@ -78,6 +81,23 @@ pub open spec fn recs_size(s: Seq<Rec>) -> nat
     if s.len() == 0 { 0 } else { recs_size(s.drop_last()) + s.last().size }
 }
 
+// byte offset of record k inside a block's record area
+pub open spec fn off_of(recs: Seq<Rec>, k: int) -> nat
+    decreases k,
+{
+    if k <= 0 { 0 } else { off_of(recs, k - 1) + recs[k - 1].size }
+}
+pub open spec fn block_wf(recs: Seq<Rec>, used: int) -> bool {
+    &&& used == off_of(recs, recs.len() as int)
+    &&& used < 0x1_0000_0000
+    &&& forall|i: int| 0 <= i < recs.len() ==> (#[trigger] recs[i]).size > 0
+}
+// "offset `off` is the start of record k (or the end of the block for k == len)"
+pub open spec fn at_record(recs: Seq<Rec>, off: int, k: int) -> bool {
+    0 <= k <= recs.len() && off == off_of(recs, k)
+}
+
+
 #[verifier::external_body]
 pub struct BlockZero { _p: () }
 
@@ -97,6 +117,7 @@ impl BlockZero {
             r.recs() == Seq::<Rec>::empty(),
             r.meta().block_header.block_number == id,
             r.meta().block_header.used_bytes == 0,
+            block_wf(r.recs(), 0),
             r.meta().wal_header.total_blocks == 1,
             r.meta().wal_header.total_entries == 0,
             r.meta().wal_header.global_last_lsn is None,
@@ -147,6 +168,7 @@ impl BlockZero {
                 Ok(l) => l == lsn && old(self).avail() >= record@.size
                     && final(self).recs() == old(self).recs().push(record@)
                     && final(self).size() == old(self).size()
+                    && (block_wf(old(self).recs(), old(self).meta().block_header.used_bytes as int) ==> block_wf(final(self).recs(), final(self).meta().block_header.used_bytes as int))
                     && final(self).meta().wal_header == old(self).meta().wal_header
                     && final(self).meta().block_header.block_number == old(self).meta().block_header.block_number
                     && final(self).meta().block_header.used_bytes == old(self).meta().block_header.used_bytes + record@.size,
@@ -179,6 +201,7 @@ impl WalBlock {
             r.recs() == Seq::<Rec>::empty(),
             r.meta().block_number == id,
             r.meta().used_bytes == 0,
+            block_wf(r.recs(), 0),
     { unimplemented!() }
 
     // zero-filled block (MemBlock::new): block_number 0, nothing used
@@ -213,6 +236,7 @@ impl WalBlock {
                 Ok(l) => l == lsn && old(self).avail() >= record@.size
                     && final(self).recs() == old(self).recs().push(record@)
                     && final(self).size() == old(self).size()
+                    && (block_wf(old(self).recs(), old(self).meta().used_bytes as int) ==> block_wf(final(self).recs(), final(self).meta().used_bytes as int))
                     && final(self).meta().block_number == old(self).meta().block_number
                     && final(self).meta().used_bytes == old(self).meta().used_bytes + record@.size,
                 Err(_) => old(self).avail() < record@.size && final(self).image() == old(self).image(),
@@ -370,6 +394,20 @@ impl WriteAheadLog {
         &&& (td > 1 ==> self.disk_bz_recs() == self.header.recs())
         &&& (tm > 1 && td == 1 ==> true)
         &&& (self.q0() == td - 1 ==> wb_recs(d[td - 1]).is_prefix_of(self.first_pending_recs()))
+        // every block is well formed (used_bytes is the total size of its records)
+        &&& block_wf(self.header.recs(), self.header.meta().block_header.used_bytes as int)
+        &&& (forall|j: int| 0 <= j < self.flush_queue@.len() ==> block_wf((#[trigger] self.flush_queue@[j]).recs(), self.flush_queue@[j].meta().used_bytes as int))
+        &&& (self.current_block matches Some(c) ==> block_wf(c.recs(), c.meta().used_bytes as int))
+        &&& (forall|i: int| 1 <= i < td && i < d.len() ==> block_wf(wb_recs(#[trigger] d[i]), wb_meta(d[i]).used_bytes as int))
+        &&& (d.len() > 0 && bz_meta(d[0]).wal_header.total_blocks >= 1 ==> block_wf(bz_recs(d[0]), bz_meta(d[0]).block_header.used_bytes as int))
+    }
+    // right after a force: memory and file agree, so a reader opened now returns view()
+    pub closed spec fn synced(&self) -> bool {
+        &&& self.inv()
+        &&& self.disk().len() > 0
+        &&& self.td() == self.total_blocks()
+        &&& disk_log(self.disk()) =~= self.view()
+        &&& disk_wf(self.disk(), self.block_size as int)
     }
 
     pub closed spec fn first_pending_recs(&self) -> Seq<Rec> {
@@ -383,6 +421,7 @@ impl WriteAheadLog {
 //@   [C17,C01:flush.disk_eq_view] r is Ok ==> disk_log(final(self).disk()) =~= old(self).view(),
 //@   [C17:flush.view_kept] r is Ok ==> final(self).view() =~= old(self).view(),
 //@   [C17:flush.keeps_inv] r is Ok ==> final(self).inv(),
+//@   [C17:flush.synced] r is Ok ==> final(self).synced(),
 //@   [C17:flush.last_lsn_kept] final(self).last_lsn_spec() == old(self).last_lsn_spec(),
 //@   [C17:flush.frame] r is Ok ==> (final(self).total_blocks() == old(self).total_blocks() && final(self).entries() == old(self).entries() && final(self).block_size_spec() == old(self).block_size_spec()),
 //@ loop 1
@@ -433,6 +472,14 @@ impl WriteAheadLog {
 //@       } else {
 //@       }
 //@   }
+//@   assert forall|j: int| 1 <= j < o.total_blocks() && j < d3.len() implies block_wf(wb_recs(#[trigger] d3[j]), wb_meta(d3[j]).used_bytes as int) by {
+//@       if j < o.q0() {
+//@           assert(d3[j] == o.disk()[j]);
+//@       } else if j < o.q0() + o.flush_queue@.len() {
+//@           assert(d3[o.q0() + (j - o.q0())] == o.flush_queue@[j - o.q0()].image());
+//@       } else {
+//@       }
+//@   }
 //@end
 
 //@fn crates/axmos-db/src/io/wal.rs | impl FileOperations for WriteAheadLog | truncate
@@ -441,6 +488,14 @@ impl WriteAheadLog {
 //@   [C17:truncate.empties] r is Ok ==> (final(self).view() =~= Seq::<Rec>::empty() && disk_log(final(self).disk()) =~= Seq::<Rec>::empty()),
 //@   [C17:truncate.keeps_inv] r is Ok ==> final(self).inv(),
 //@   [C17:truncate.resets_lsn] r is Ok ==> final(self).last_lsn_spec() is None,
+//@end
+
+//@fn crates/axmos-db/src/io/wal.rs | impl WriteAheadLog | reader
+//@ requires old(self).synced(), 1 <= read_ahead_amount <= 0x1_0000,
+//@ ensures
+//@   [C17:roundtrip.reader_returns_view] r matches Ok(rd) ==> (rd.inv() && rd.remaining() =~= old(self).view()),
+//@ proof-before /WalReader::new\(/
+//@   lemma_ra(self.block_size, read_ahead_amount);
 //@end
 
 //@fn crates/axmos-db/src/io/wal.rs | impl WriteAheadLog | max_record_size
@@ -550,6 +605,7 @@ impl WriteAheadLog {
 //@ requires old(self).inv(),
 //@ ensures
 //@   [C01,C17:walflush.is_force] r is Ok ==> (disk_log(final(self).disk()) =~= old(self).view() && final(self).view() =~= old(self).view() && final(self).inv()),
+//@   [C17:walflush.synced] r is Ok ==> final(self).synced(),
 //@   [C01:walflush.keeps_lsn] final(self).last_lsn_spec() == old(self).last_lsn_spec(),
 //@   [C01:walflush.frame] r is Ok ==> (final(self).total_blocks() == old(self).total_blocks() && final(self).entries() == old(self).entries() && final(self).block_size_spec() == old(self).block_size_spec()),
 //@end
@@ -729,6 +785,262 @@ impl Session {
 //@end
 }
 
+
+// ---------------------------------------------------------------------------------------
+// The reader (C17: reading back yields exactly disk_log, for every read-ahead >= 1 block)
+// ---------------------------------------------------------------------------------------
+//@trusted [env] MemBlock::record(offset) returns the record that starts at byte `offset` of the block's record area; a block's used_bytes is the total size of its records and every record has positive size (block_wf), for blocks decoded from disk images that the writer produced (wal unit: try_push keeps block_wf) -- checked bounded on the real code by Kani unit walbytes
+
+// std functions used by the reader (assumed contracts of the standard library)
+pub assume_specification[ usize::next_multiple_of ](x: usize, rhs: usize) -> (r: usize)
+    requires rhs > 0, x + rhs <= usize::MAX,
+    ensures r >= x, r as int % rhs as int == 0, r - x < rhs;
+
+
+// stands for `a.min(b)` on usize (Ord::min is a provided trait method: not specifiable in this Verus)
+pub fn min_usize(x: usize, y: usize) -> (r: usize)
+    ensures r == (if x <= y { x } else { y }),
+{ if x <= y { x } else { y } }
+
+#[verifier::external_body]
+pub struct RecordRef<'a> { _p: &'a () }
+impl<'a> RecordRef<'a> {
+    pub uninterp spec fn view(&self) -> Rec;
+    #[verifier::external_body]
+    pub fn total_size(&self) -> (r: usize) ensures r == self@.size { unimplemented!() }
+}
+
+impl BlockZero {
+    #[verifier::external_body]
+    pub fn as_mut(&mut self) -> (r: &mut [u8])
+        ensures r@ == old(self).image(), final(self).image() == final(r)@,
+    { unimplemented!() }
+
+    #[verifier::external_body]
+    pub fn record(&self, offset: u64) -> (r: RecordRef<'_>)
+        requires [C17:reader.record_offset_valid] at_record(self.recs(), offset as int, pos_of(self.recs(), offset as int)) && pos_of(self.recs(), offset as int) < self.recs().len(),
+        ensures r@ == self.recs()[pos_of(self.recs(), offset as int)],
+    { unimplemented!() }
+}
+impl WalBlock {
+    #[verifier::external_body]
+    pub fn as_mut(&mut self) -> (r: &mut [u8])
+        ensures r@ == old(self).image(), final(self).image() == final(r)@,
+    { unimplemented!() }
+
+    #[verifier::external_body]
+    pub fn record(&self, offset: u64) -> (r: RecordRef<'_>)
+        requires [C17:reader.record_offset_valid2] at_record(self.recs(), offset as int, pos_of(self.recs(), offset as int)) && pos_of(self.recs(), offset as int) < self.recs().len(),
+        ensures r@ == self.recs()[pos_of(self.recs(), offset as int)],
+    { unimplemented!() }
+}
+
+impl DBFile {
+    // reads exactly one block at a block-aligned cursor; fails (UnexpectedEof) beyond the end of the file
+    #[verifier::external_body]
+    pub fn read_exact(&mut self, buf: &mut [u8]) -> (r: io::Result<()>)
+        requires
+            [C17:reader.block_aligned_reads] old(self).tag() > 0 && old(buf)@.len() == old(self).tag() && old(self).cursor() % old(self).tag() == 0,
+        ensures
+            final(self).blocks() == old(self).blocks(),
+            final(self).tag() == old(self).tag(),
+            final(buf)@.len() == old(buf)@.len(),
+            r is Ok ==> ((old(self).cursor() / old(self).tag()) < old(self).blocks().len() && final(buf)@ == old(self).blocks()[(old(self).cursor() / old(self).tag()) as int]),
+    { unimplemented!() }
+}
+
+// every block the on-disk header accounts for is well formed (what the writer's force establishes)
+pub open spec fn disk_wf(b: Seq<Seq<u8>>, bs: int) -> bool {
+    &&& b.len() >= 1
+    &&& dtd(b) <= b.len()
+    &&& bz_meta(b[0]).wal_header.total_blocks >= 1
+    &&& block_wf(bz_recs(b[0]), bz_meta(b[0]).block_header.used_bytes as int)
+    &&& (forall|i: int| 1 <= i < dtd(b) ==> block_wf(wb_recs(#[trigger] b[i]), wb_meta(b[i]).used_bytes as int))
+    &&& (forall|i: int| 0 <= i < dtd(b) ==> (#[trigger] b[i]).len() == bs)
+}
+
+//@item crates/axmos-db/src/io/wal.rs | - | struct WalReader
+
+impl<'a> WalReader<'a> {
+    pub closed spec fn bs(&self) -> int { self.block_size as int }
+    pub closed spec fn next_disk(&self) -> int { self.file_offset as int / self.block_size as int }
+    pub closed spec fn disk_rest(&self) -> Seq<Rec> { numbered(self.file.blocks(), self.next_disk(), self.total_blocks as int) }
+
+    pub closed spec fn core(&self) -> bool {
+        let bs = self.block_size as int;
+        &&& 0 < bs <= MAX_BLOCK_SIZE()
+        &&& self.file.tag() == bs
+        &&& disk_wf(self.file.blocks(), bs)
+        &&& self.total_blocks as int == dtd(self.file.blocks())
+        &&& self.total_blocks < MAX_BLOCKS()
+        &&& self.read_ahead_size as int >= bs && self.read_ahead_size as int % bs == 0 && self.read_ahead_size < 0x1000_0000_0000
+        &&& self.file_offset as int % bs == 0
+        &&& 1 <= self.next_disk() <= self.total_blocks
+        &&& self.header.image() == self.file.blocks()[0]
+        // the queue holds the blocks just before next_disk
+        &&& self.block_queue@.len() <= self.next_disk() - 1
+        &&& (forall|j: int| 0 <= j < self.block_queue@.len() ==> (#[trigger] self.block_queue@[j]).image() == self.file.blocks()[self.next_disk() - self.block_queue@.len() + j])
+    }
+    pub closed spec fn cursor_ok(&self) -> bool {
+        match self.current_block_index {
+            None => at_record(self.header.recs(), self.current_block_offset as int, pos_of(self.header.recs(), self.current_block_offset as int)),
+            Some(i) => i <= self.block_queue@.len() && (i < self.block_queue@.len() ==> at_record(self.block_queue@[i as int].recs(), self.current_block_offset as int, pos_of(self.block_queue@[i as int].recs(), self.current_block_offset as int))),
+        }
+    }
+    pub closed spec fn inv(&self) -> bool { self.core() && self.cursor_ok() }
+    // nothing buffered is left to return: the next record (if any) is on disk
+    pub closed spec fn buffered_exhausted(&self) -> bool {
+        match self.current_block_index {
+            None => self.block_queue@.len() == 0 && self.current_block_offset as int >= self.header.meta().block_header.used_bytes,
+            Some(i) => i >= self.block_queue@.len(),
+        }
+    }
+
+
+//@fn crates/axmos-db/src/io/wal.rs | impl<'a> WalReader<'a> | new
+//@ sub /\(read_ahead_size \/ block_size\)\.min\(total_blocks\.saturating_sub\(1\) as usize\)/ => min_usize(read_ahead_size / block_size, total_blocks.saturating_sub(1) as usize)
+//@ requires
+//@   0 < block_size <= MAX_BLOCK_SIZE(), old(file).tag() == block_size, disk_wf(old(file).blocks(), block_size as int),
+//@   total_blocks as int == dtd(old(file).blocks()), total_blocks < MAX_BLOCKS(),
+//@   1 <= read_ahead_size < 0x800_0000_0000,
+//@ ensures
+//@   [C17:reader.starts_at_disk_log] r matches Ok(rd) ==> (rd.inv() && rd.remaining() =~= disk_log(old(file).blocks())),
+//@ proof-before /file\.read_exact\(header\.as_mut\(\)\)/
+//@   vstd::arithmetic::div_mod::lemma_small_mod(0, block_size as nat);
+//@   vstd::arithmetic::div_mod::lemma_div_basics_2(block_size as int);
+//@ proof-before /let num_blocks_to_read/
+//@   lemma_off(total_blocks, block_size);
+//@   lemma_block_arith(block_size as int, block_size as int, total_blocks as int);
+//@   lemma_multiple_ge(read_ahead_size as int, block_size as int);
+//@   assert(read_ahead_size as int / block_size as int >= 1) by(nonlinear_arith) requires read_ahead_size as int >= block_size as int, block_size as int > 0;
+//@ loop 1
+//@   invariant
+//@     0 < block_size <= MAX_BLOCK_SIZE(), total_blocks < MAX_BLOCKS(), file.tag() == block_size,
+//@     disk_wf(file.blocks(), block_size as int), total_blocks as int == dtd(file.blocks()),
+//@     file.blocks() == old(file).blocks(), file.tag() == old(file).tag(),
+//@     header.image() == file.blocks()[0],
+//@     file_offset as int % (block_size as int) == 0,
+//@     1 <= file_offset as int / (block_size as int) <= total_blocks,
+//@     total_blocks * block_size < 0x100_0000_0000_0000,
+//@     qlen(block_queue@) == file_offset as int / (block_size as int) - 1,
+//@     queue_mirrors(block_queue@, file.blocks(), 1),
+//@ proof-before /if file_offset >= \(total_blocks as u64 \* block_size as u64\)/
+//@   lemma_block_arith(file_offset as int, block_size as int, total_blocks as int);
+//@ proof-after /file_offset \+= block_size as u64;/
+//@   lemma_block_arith(file_offset as int - block_size as int, block_size as int, total_blocks as int);
+//@ proof-before /Ok\(Self \{/
+//@   lemma_numbered_queue_at(file.blocks(), block_queue@, 1);
+//@   lemma_numbered_split(file.blocks(), 1, file_offset as int / (block_size as int), total_blocks as int);
+//@   lemma_pos_zero(header.recs());
+//@   assert(at_record(header.recs(), 0int, 0int));
+//@end
+
+//@fn crates/axmos-db/src/io/wal.rs | impl<'a> WalReader<'a> | header_used_bytes
+//@ ensures r == self.header.meta().block_header.used_bytes as usize,
+//@end
+
+//@fn crates/axmos-db/src/io/wal.rs | impl<'a> WalReader<'a> | reload_blocks
+//@ requires old(self).core(),
+//@ ensures
+//@   [C17:reload.conserves_rest] r matches Ok(true) ==> (final(self).block_queue@.len() > 0 && queue_recs(final(self).block_queue@) + final(self).disk_rest() =~= old(self).disk_rest()),
+//@   [C17:reload.advances] r matches Ok(true) ==> final(self).next_disk() == old(self).next_disk() + final(self).block_queue@.len(),
+//@   [C17:reload.false_only_at_end] r matches Ok(false) ==> (old(self).disk_rest().len() == 0 && final(self).disk_rest().len() == 0 && final(self).block_queue@ == old(self).block_queue@),
+//@   [C17:reader.never_past_total_blocks] r is Ok ==> final(self).core(),
+//@   [C17:reload.frame] final(self).current_block_index == old(self).current_block_index && final(self).current_block_offset == old(self).current_block_offset && final(self).header == old(self).header,
+//@ proof-before /let last_valid_offset/
+//@   lemma_off(self.total_blocks, self.block_size);
+//@   lemma_block_arith(self.file_offset as int, self.block_size as int, self.total_blocks as int);
+//@ loop 1
+//@   invariant_except_break
+//@     self.block_queue@.len() == axv_i,
+//@   invariant
+//@     self.file.blocks() == old(self).file.blocks(),
+//@     self.file.tag() == old(self).file.tag(),
+//@     self.block_size == old(self).block_size && self.total_blocks == old(self).total_blocks && self.read_ahead_size == old(self).read_ahead_size,
+//@     self.header == old(self).header && self.current_block_index == old(self).current_block_index && self.current_block_offset == old(self).current_block_offset,
+//@     old(self).core(),
+//@     last_valid_offset == self.total_blocks * self.block_size,
+//@     last_valid_offset < 0x100_0000_0000_0000,
+//@     num_blocks >= 1,
+//@     old(self).file_offset < last_valid_offset,
+//@     self.file_offset as int % (self.block_size as int) == 0,
+//@     old(self).next_disk() <= self.next_disk() <= self.total_blocks,
+//@     self.block_queue@.len() == self.next_disk() - old(self).next_disk(),
+//@     forall|j: int| 0 <= j < self.block_queue@.len() ==> (#[trigger] self.block_queue@[j]).image() == self.file.blocks()[old(self).next_disk() + j],
+//@   ensures
+//@     self.block_queue@.len() > 0,
+//@ proof-before /if self\.file_offset >= last_valid_offset \{\s*break/
+//@   lemma_block_arith(self.file_offset as int, self.block_size as int, self.total_blocks as int);
+//@   lemma_block_arith(old(self).file_offset as int, self.block_size as int, self.total_blocks as int);
+//@ proof-before /for axv_i in/
+//@   assert(self.read_ahead_size as int / self.block_size as int >= 1) by(nonlinear_arith) requires self.read_ahead_size as int >= self.block_size as int, self.block_size as int > 0;
+//@ proof-after /self\.file_offset \+= self\.block_size as u64;/
+//@   lemma_block_arith(self.file_offset as int - self.block_size as int, self.block_size as int, self.total_blocks as int);
+//@ proof-before /Ok\(!self\.block_queue\.is_empty\(\)\)/
+//@   lemma_numbered_queue_at(self.file.blocks(), self.block_queue@, old(self).next_disk());
+//@   lemma_numbered_split(self.file.blocks(), old(self).next_disk(), self.next_disk(), self.total_blocks as int);
+//@end
+
+
+//@fn crates/axmos-db/src/io/wal.rs | impl<'a> WalReader<'a> | next_ref
+//@ requires old(self).inv(),
+//@ ensures
+//@   [C17:reader.next_is_disk_log_i] r matches Ok(Some(rec)) ==> (old(self).remaining().len() > 0 && rec@ == old(self).remaining()[0] && final(self).remaining() =~= old(self).remaining().skip(1)),
+//@   [C17:reader.none_exactly_at_end] r matches Ok(None) ==> old(self).remaining().len() == 0,
+//@   [C17:reader.keeps_inv] r is Ok ==> final(self).inv(),
+//@ loop 1
+//@   invariant
+//@     self.inv(),
+//@     self.remaining() =~= old(self).remaining(),
+//@   decreases (if self.current_block_index is None { 1int } else { 0int }), self.total_blocks as int - self.next_disk(), (match self.current_block_index { Some(i) => self.block_queue@.len() - i as int, None => 0int }),
+//@ proof-before /if self\.current_block_offset >= self\.header_used_bytes\(\)/
+//@   lemma_cursor_facts(self.header.recs(), self.header.meta().block_header.used_bytes as int, self.current_block_offset as int);
+//@ proof-before /self\.current_block_index = Some\(0\);/#1
+//@   lemma_queue_recs_front(self.block_queue@);
+//@   lemma_pos_zero(self.block_queue@[0].recs());
+//@   lemma_queue_wf(self.file.blocks(), self.block_queue@, self.next_disk(), self.block_size as int);
+//@ proof-before /self\.current_block_offset \+= record\.total_size\(\);/#1
+//@   lemma_advance(self.header.recs(), self.header.meta().block_header.used_bytes as int, self.current_block_offset as int);
+//@ proof-before /self\.current_block_index = Some\(0\);/#2
+//@   lemma_queue_recs_front(self.block_queue@);
+//@   lemma_pos_zero(self.block_queue@[0].recs());
+//@   lemma_queue_wf(self.file.blocks(), self.block_queue@, self.next_disk(), self.block_size as int);
+//@ proof-before /let used = self\.block_queue\[idx\]/
+//@   lemma_queue_wf(self.file.blocks(), self.block_queue@, self.next_disk(), self.block_size as int);
+//@   lemma_cursor_facts(self.block_queue@[idx as int].recs(), self.block_queue@[idx as int].meta().used_bytes as int, self.current_block_offset as int);
+//@ proof-before /self\.current_block_index = Some\(idx \+ 1\);/
+//@   lemma_queue_recs_front(self.block_queue@.skip(idx as int + 1));
+//@   if idx + 1 < self.block_queue@.len() {
+//@       assert(self.block_queue@.skip(idx as int + 1).skip(1) =~= self.block_queue@.skip(idx as int + 2));
+//@       lemma_pos_zero(self.block_queue@[idx as int + 1].recs());
+//@       assert(self.block_queue@.skip(idx as int + 1)[0] == self.block_queue@[idx as int + 1]);
+//@   }
+//@ proof-before /self\.current_block_offset \+= record\.total_size\(\);/#2
+//@   lemma_advance(self.block_queue@[idx as int].recs(), self.block_queue@[idx as int].meta().used_bytes as int, self.current_block_offset as int);
+//@end
+
+    // what is still to be returned
+    pub closed spec fn remaining(&self) -> Seq<Rec> {
+        match self.current_block_index {
+            None => self.header.recs().skip(pos_of(self.header.recs(), self.current_block_offset as int)) + queue_recs(self.block_queue@) + self.disk_rest(),
+            Some(i) => (if i < self.block_queue@.len() {
+                            self.block_queue@[i as int].recs().skip(pos_of(self.block_queue@[i as int].recs(), self.current_block_offset as int))
+                                + queue_recs(self.block_queue@.skip(i as int + 1))
+                        } else { Seq::<Rec>::empty() }) + self.disk_rest(),
+        }
+    }
+}
+
+pub open spec fn qlen(q: Seq<WalBlock>) -> int { q.len() as int }
+pub open spec fn queue_mirrors(q: Seq<WalBlock>, d: Seq<Seq<u8>>, from: int) -> bool {
+    forall|j: int| 0 <= j < q.len() ==> (#[trigger] q[j]).image() == d[from + j]
+}
+
+// the record index at byte offset `off` (the k with off_of(k) == off)
+pub open spec fn pos_of(recs: Seq<Rec>, off: int) -> int {
+    choose|k: int| at_record(recs, off, k)
+}
+
 // ---------------------------------------------------------------------------------------
 // lemmas about sequences of blocks
 // ---------------------------------------------------------------------------------------
@@ -885,6 +1197,165 @@ pub proof fn lemma_flush_view(od: Seq<Seq<u8>>, d2: Seq<Seq<u8>>, q: Seq<WalBloc
         assert(numbered(d2, q0 + n, q0 + n) =~= Seq::<Rec>::empty());
     } else {
         assert(numbered(d2, q0 + n, q0 + n) =~= Seq::<Rec>::empty());
+    }
+}
+
+
+
+pub proof fn lemma_off_monotone(recs: Seq<Rec>, a: int, b: int)
+    requires 0 <= a < b <= recs.len(), forall|i: int| 0 <= i < recs.len() ==> (#[trigger] recs[i]).size > 0,
+    ensures off_of(recs, a) < off_of(recs, b),
+    decreases b,
+{
+    if a < b - 1 { lemma_off_monotone(recs, a, b - 1); }
+}
+
+pub proof fn lemma_pos_unique(recs: Seq<Rec>, off: int, k: int)
+    requires at_record(recs, off, k), forall|i: int| 0 <= i < recs.len() ==> (#[trigger] recs[i]).size > 0,
+    ensures pos_of(recs, off) == k,
+{
+    let c = pos_of(recs, off);
+    assert(at_record(recs, off, c));   // choose: k is a witness
+    if c < k { lemma_off_monotone(recs, c, k); }
+    if k < c { lemma_off_monotone(recs, k, c); }
+}
+
+pub proof fn lemma_pos_zero(recs: Seq<Rec>)
+    requires forall|i: int| 0 <= i < recs.len() ==> (#[trigger] recs[i]).size > 0,
+    ensures pos_of(recs, 0) == 0, at_record(recs, 0, 0), at_record(recs, 0, pos_of(recs, 0)), recs.skip(0) =~= recs,
+{
+    assert(at_record(recs, 0, 0));
+    lemma_pos_unique(recs, 0, 0);
+}
+
+// at a valid cursor: exhausted iff at the end; otherwise the cursor addresses a record
+pub proof fn lemma_cursor_facts(recs: Seq<Rec>, used: int, off: int)
+    requires block_wf(recs, used), at_record(recs, off, pos_of(recs, off)),
+    ensures
+        at_record(recs, off, pos_of(recs, off)),
+        off >= used ==> (pos_of(recs, off) == recs.len() && recs.skip(pos_of(recs, off)) =~= Seq::<Rec>::empty()),
+        off < used ==> pos_of(recs, off) < recs.len(),
+{
+    let k = pos_of(recs, off);
+    if k < recs.len() { lemma_off_monotone(recs, k, recs.len() as int); }
+}
+
+// consuming the record at a valid cursor moves to the next record
+pub proof fn lemma_advance(recs: Seq<Rec>, used: int, off: int)
+    requires block_wf(recs, used), at_record(recs, off, pos_of(recs, off)), off < used,
+    ensures
+        ({ let k = pos_of(recs, off);
+           &&& k < recs.len()
+           &&& at_record(recs, off + recs[k].size, k + 1)
+           &&& pos_of(recs, off + recs[k].size) == k + 1
+           &&& at_record(recs, off + recs[k].size, pos_of(recs, off + recs[k].size))
+           &&& recs.skip(k).len() > 0
+           &&& recs.skip(k)[0] == recs[k]
+           &&& recs.skip(k).skip(1) =~= recs.skip(k + 1)
+           &&& off + recs[k].size <= used }),
+{
+    lemma_cursor_facts(recs, used, off);
+    let k = pos_of(recs, off);
+    assert(at_record(recs, off + recs[k].size, k + 1));
+    lemma_pos_unique(recs, off + recs[k].size, k + 1);
+    if k + 1 < recs.len() { lemma_off_monotone(recs, k + 1, recs.len() as int); }
+}
+
+pub proof fn lemma_queue_recs_front(q: Seq<WalBlock>)
+    ensures q.len() > 0 ==> queue_recs(q) =~= q[0].recs() + queue_recs(q.skip(1)),
+            q.len() == 0 ==> queue_recs(q) =~= Seq::<Rec>::empty(),
+    decreases q.len(),
+{
+    if q.len() > 1 {
+        let dl = q.drop_last();
+        lemma_queue_recs_front(dl);
+        assert(dl.skip(1) =~= q.skip(1).drop_last());
+        assert(q.skip(1).last() == q.last());
+        assert(dl[0] == q[0]);
+        assert(queue_recs(q) =~= queue_recs(dl) + q.last().recs());
+        assert(queue_recs(q.skip(1)) =~= queue_recs(q.skip(1).drop_last()) + q.skip(1).last().recs());
+    } else if q.len() == 1 {
+        assert(q.drop_last().len() == 0);
+        assert(queue_recs(q.drop_last()) =~= Seq::<Rec>::empty());
+        assert(q.skip(1).len() == 0);
+        assert(queue_recs(q.skip(1)) =~= Seq::<Rec>::empty());
+        assert(queue_recs(q) =~= queue_recs(q.drop_last()) + q.last().recs());
+    }
+}
+
+// blocks buffered from a well-formed file are well formed
+pub proof fn lemma_queue_wf(d: Seq<Seq<u8>>, q: Seq<WalBlock>, next: int, bs: int)
+    requires
+        disk_wf(d, bs), 1 <= next <= dtd(d), q.len() <= next - 1,
+        forall|j: int| 0 <= j < q.len() ==> (#[trigger] q[j]).image() == d[next - q.len() + j],
+    ensures
+        forall|j: int| 0 <= j < q.len() ==> block_wf((#[trigger] q[j]).recs(), q[j].meta().used_bytes as int),
+{
+    assert forall|j: int| 0 <= j < q.len() implies block_wf((#[trigger] q[j]).recs(), q[j].meta().used_bytes as int) by {
+        let i = next - q.len() + j;
+        assert(1 <= i < dtd(d));
+        assert(block_wf(wb_recs(d[i]), wb_meta(d[i]).used_bytes as int));
+    }
+}
+
+pub proof fn lemma_multiple_ge(r: int, bs: int)
+    requires bs > 0, r > 0, r % bs == 0,
+    ensures r >= bs,
+{
+    vstd::arithmetic::div_mod::lemma_fundamental_div_mod(r, bs);
+    let q = r / bs;
+    if q <= 0 {
+        vstd::arithmetic::mul::lemma_mul_inequality(q, 0, bs);
+        vstd::arithmetic::mul::lemma_mul_is_commutative(bs, q);
+    } else {
+        vstd::arithmetic::mul::lemma_mul_inequality(1, q, bs);
+        vstd::arithmetic::mul::lemma_mul_is_commutative(bs, q);
+    }
+}
+
+pub proof fn lemma_ra(bs: usize, n: usize)
+    requires 0 < bs <= MAX_BLOCK_SIZE(), 1 <= n <= 0x1_0000,
+    ensures 1 <= bs * n <= 0x100_0000_0000,
+{
+    vstd::arithmetic::mul::lemma_mul_inequality(1, n as int, bs as int);       // 1*bs <= n*bs
+    vstd::arithmetic::mul::lemma_mul_inequality(n as int, 0x1_0000, bs as int); // n*bs <= 0x1_0000*bs
+    vstd::arithmetic::mul::lemma_mul_inequality(bs as int, 0x100_0000, 0x1_0000); // bs*0x1_0000 <= 0x100_0000*0x1_0000
+    vstd::arithmetic::mul::lemma_mul_is_commutative(bs as int, n as int);
+    vstd::arithmetic::mul::lemma_mul_is_commutative(bs as int, 0x1_0000);
+    assert(0x100_0000 * 0x1_0000 == 0x100_0000_0000) by(compute);
+}
+
+pub proof fn lemma_block_arith(off: int, bs: int, t: int)
+    requires bs > 0, off >= 0, off % bs == 0, t >= 0,
+    ensures
+        (off + bs) % bs == 0,
+        (off + bs) / bs == off / bs + 1,
+        (off >= t * bs) == (off / bs >= t),
+        off == (off / bs) * bs,
+{
+    vstd::arithmetic::div_mod::lemma_fundamental_div_mod(off, bs);
+    vstd::arithmetic::div_mod::lemma_div_plus_one(off, bs);
+    vstd::arithmetic::div_mod::lemma_mod_adds(off, bs, bs);
+    vstd::arithmetic::mul::lemma_mul_is_commutative(bs, off / bs);
+    let q = off / bs;
+    assert(off == q * bs);
+    if q >= t {
+        vstd::arithmetic::mul::lemma_mul_inequality(t, q, bs);
+    } else {
+        vstd::arithmetic::mul::lemma_mul_strict_inequality(q, t, bs);
+    }
+}
+
+pub proof fn lemma_numbered_queue_at(d: Seq<Seq<u8>>, q: Seq<WalBlock>, q0: int)
+    requires forall|k: int| 0 <= k < q.len() ==> (#[trigger] q[k]).image() == d[q0 + k],
+    ensures numbered(d, q0, q0 + q.len()) =~= queue_recs(q),
+    decreases q.len(),
+{
+    if q.len() > 0 {
+        let q1 = q.drop_last();
+        assert forall|k: int| 0 <= k < q1.len() implies (#[trigger] q1[k]).image() == d[q0 + k] by { assert(q1[k] == q[k]); }
+        lemma_numbered_queue_at(d, q1, q0);
+        assert(q[q.len() - 1].image() == d[q0 + (q.len() - 1)]);
     }
 }
 
